@@ -23,8 +23,9 @@ ACTIONS = ("ArityOk", "ArityFail", "ArgBindsT", "ArgOk", "ArgFail", "ResultOk", 
 
 def spec_verdicts(ctx, cases, coverage=False):
     pin = os.path.join(ctx.workdir, "overload_in.json")
-    json.dump([{"id": c["id"], "vs": [{"ps": v["ps"], "ret": v["ret"]} for v in c["vs"]], "args": c["args"],
-                "mode": c["mode"]} for c in cases], open(pin, "w"))
+    fn = lambda v: {"k": "fn", "ps": v["ps"], "ret": v["ret"]}
+    json.dump([{"id": c["id"], "vs": [{"k": "set", "vs": [fn(w) for w in v["vs"]]} if v["k"] == "set" else fn(v) for v in c["vs"]],
+                "args": c["args"], "mode": c["mode"]} for c in cases], open(pin, "w"))
     r = ctx.tlc("Overload", env={"VERIF_IN": pin}, timeout=3000, coverage=coverage)
     if coverage:  # vacuity guard: every step of the resolution algorithm is exercised
         never = [a for a in ACTIONS if r.coverage.get(a, (0, 0))[1] == 0]
@@ -51,6 +52,7 @@ def build_cases(ctx):
     n_ex = len(cases)
     cases += G.fallthrough_family(rng, ctx.pick(1200, 3000))
     n_ft = len(cases) - n_ex
+    cases += G.nested_family(rng, ctx.pick(500, None))  # a variant that is itself an overloaded function
     for _ in range(ctx.pick(1000, 6000)):
         cases.append(G.random_case(rng))
     seen, out = set(), []
@@ -66,10 +68,17 @@ def build_cases(ctx):
 
 
 def replay_cases(cases, verdicts):
-    jobs = [{"id": c["id"], "src": c["src"], "n": len(c["vs"]), "pick": verdicts[c["id"]]["pick"],
-             "runnable": [not v["decl"] for v in c["vs"]], "args": G.MAIN_ARGS} for c in cases]
+    jobs = [{"id": c["id"], "src": c["src"], "leaves": [n for n, _ in G.leaves(c)], "pick": pick_name(verdicts[c["id"]]),
+             "runnable": {n: not w["decl"] for n, w in G.leaves(c)}, "args": G.MAIN_ARGS} for c in cases]
     pool._init()
     return pool.map_jobs(R.replay_job, jobs, chunksize=16)
+
+
+def pick_name(v):
+    """Name of the function the spec resolves the call to (None = reject)."""
+    if not v["pick"]:
+        return None
+    return f"v{v['pick']}" + (f"_{v['ipick']}" if v["ipick"] else "")
 
 
 def judge(case, v, res):
@@ -79,23 +88,29 @@ def judge(case, v, res):
         raise lib.Machinery(f"replay worker failed on case {case['id']}: {res['machinery']}")
     out = []
     # 0. the spec's notion of "variant k accepts this call" against a direct call of v_k
-    for k, (d, acc) in enumerate(zip(res["d"], v["acc"]), 1):
+    flat_acc = [a for accs in v["acc"] for a in accs]
+    names = [n for n, _ in G.leaves(case)]
+    if len(flat_acc) != len(names):
+        raise lib.Machinery(f"spec printed {len(flat_acc)} acceptance flags for {len(names)} functions (case {case['id']})")
+    for name, acc in zip(names, flat_acc):
+        d = res["d"][name]
         if d["status"] == "crash":
-            out.append(("crash-direct", f"direct call of v{k} crashed the checker: {d}"))
+            out.append(("crash-direct", f"direct call of {name} crashed the checker: {d}"))
         elif (d["status"] == "ok") != acc:
             raise lib.Machinery(
                 f"spec model of a direct call disagrees with /repo (coercion rules, C16 territory): case {case['id']} "
-                f"variant {k} spec accepts={acc}, code {d}\n{case['src']}")
+                f"function {name} spec accepts={acc}, code {d}\n{case['src']}")
     o = res["o"]
-    pick = v["pick"]
+    pick = pick_name(v)
     trail = "+".join(f"{t['at']}{'~co' if t['co'] else ''}" for t in v["trail"]) or "none"
     # an int literal that an abandoned variant has already looked at (it got past that argument)
-    relit = any(t["at"] in ("arg", "result") and any(a == "lpos" for a in case["args"][:t["pos"] - 1]) for t in v["trail"])
+    # (a nested set that matched nothing synthesises the types of all arguments for its error message)
+    relit = any(t["at"] in ("arg", "result", "set") and any(a == "lpos" for a in case["args"][:t["pos"] - 1]) for t in v["trail"])
     ctxs = "int-literal-already-checked-by-abandoned-variant" if relit else f"prior={trail}"
     if o["status"] == "crash":
         out.append((f"crash|{ctxs}", f"checking the overloaded call crashed: {o}"))
         return out
-    if pick == 0:
+    if pick is None:
         if o["status"] == "ok":
             got = res.get("o_run", {}).get("callees")
             out.append((f"accepts-without-match|{ctxs}", f"no variant accepts, but the call is accepted (linked to {got})"))
@@ -103,25 +118,25 @@ def judge(case, v, res):
             out.append((f"wrong-error:{o['diag']}|{ctxs}", f"no variant accepts; expected OverloadNoMatchError, got {o}"))
         return out
     if o["status"] != "ok":
-        out.append((f"rejects-despite-match|{ctxs}", f"variant {pick} accepts (direct call v{pick}(...) is accepted) but the "
+        out.append((f"rejects-despite-match|{ctxs}", f"{pick} accepts (the direct call {pick}(...) is accepted) but the "
                     f"overloaded call is rejected: {o['diag']}"))
         return out
     orun = res["o_run"]
     if orun["status"] != "ok":
         out.append((f"{orun['status']}|{ctxs}", f"accepted overloaded call does not compile/validate: {orun.get('error')}"))
         return out
-    if orun["callees"] != [f"v{pick}"]:
-        out.append((f"wrong-variant|{ctxs}", f"expected v{pick}, call linked to {orun['callees']}"))
-    drun = res["d_run"].get(str(pick))
+    if orun["callees"] != [pick]:
+        out.append((f"wrong-variant|{ctxs}", f"expected {pick}, call linked to {orun['callees']}"))
+    drun = res["d_run"].get(pick)
     if drun is None or drun["status"] != "ok":
-        out.append((f"direct-call-broken|{ctxs}", f"direct call of v{pick}: {drun}"))
+        out.append((f"direct-call-broken|{ctxs}", f"direct call of {pick}: {drun}"))
         return out
     for side, rr in (("overloaded", orun), ("direct", drun)):
         if rr.get("end") in ("unsupported", "interp_error", "budget"):
             raise lib.Machinery(f"interpreter: {rr.get('end')} {rr.get('msg')} on case {case['id']} ({side})")
-    if "events" in drun and orun["callees"] == [f"v{pick}"]:
+    if "events" in drun and orun["callees"] == [pick]:
         if orun.get("events") != drun["events"] or orun.get("end") != drun.get("end"):
-            out.append((f"behaviour-differs|{ctxs}", f"events of overloaded call {orun.get('events')} != direct call of v{pick} {drun['events']}"))
+            out.append((f"behaviour-differs|{ctxs}", f"events of overloaded call {orun.get('events')} != direct call of {pick} {drun['events']}"))
     return out
 
 
@@ -134,7 +149,8 @@ def run(ctx):
     results = replay_cases(cases, verdicts)
     ctx.log("replay done")
     groups, tally = {}, {"pick": 0, "reject": 0, "late_fail": 0, "late_fail_after_coercion": 0, "events_compared": 0,
-                         "declared_pick": 0, "pick_not_first": 0}
+                         "declared_pick": 0, "pick_not_first": 0, "with_nested_set": 0, "pick_inside_nested_set": 0,
+                         "nested_set_exhausted_then_pick": 0}
     for c, res in zip(cases, results):
         v = verdicts[c["id"]]
         tally["pick" if v["pick"] else "reject"] += 1
@@ -142,19 +158,25 @@ def run(ctx):
         tally["late_fail"] += bool(late)
         tally["late_fail_after_coercion"] += any(t["co"] for t in v["trail"])
         tally["pick_not_first"] += v["pick"] > 1
-        if v["pick"] and c["vs"][v["pick"] - 1]["decl"]:
+        pn = pick_name(v)
+        tally["with_nested_set"] += any(x["k"] == "set" for x in c["vs"])
+        tally["pick_inside_nested_set"] += bool(v["ipick"])
+        tally["nested_set_exhausted_then_pick"] += bool(pn) and any(t["at"] == "set" for t in v["trail"])
+        if pn and dict(G.leaves(c))[pn]["decl"]:
             tally["declared_pick"] += 1
-        if v["pick"] and "events" in res.get("d_run", {}).get(str(v["pick"]), {}):
+        if pn and "events" in res.get("d_run", {}).get(pn, {}):
             tally["events_compared"] += 1
         for cls, text in judge(c, v, res):
             groups.setdefault(cls, []).append((len(c["src"]), c, v, res, text))
     for cls, items in sorted(groups.items()):
         items.sort(key=lambda t: (t[0], t[1]["src"]))
         _, c, v, res, text = items[0]
-        ctx.violation(cls, f"{len(items)} cases; smallest: overload({', '.join('(' + ', '.join(x['ps']) + ') -> ' + x['ret'] for x in c['vs'])}) "
+        sig = lambda x: ("overload(" + ", ".join(sig(w) for w in x["vs"]) + ")") if x["k"] == "set" else "(" + ", ".join(x["ps"]) + ") -> " + x["ret"]
+        ctx.violation(cls, f"{len(items)} cases; smallest: overload({', '.join(sig(x) for x in c['vs'])}) "
                       f"called with ({', '.join(G.ARG_SRC[a] for a in c['args'])}), mode {c['mode']}: {text}",
                       {"cases": [{"case": {k: t[1][k] for k in ("vs", "args", "mode")}, "spec": t[2], "code": t[3]} for t in items[:8]]})
-    if not ctx.violations and (tally["late_fail_after_coercion"] == 0 or tally["pick_not_first"] == 0 or tally["reject"] == 0):
+    if not ctx.violations and (tally["late_fail_after_coercion"] == 0 or tally["pick_not_first"] == 0 or tally["reject"] == 0
+                               or tally["pick_inside_nested_set"] == 0):
         raise lib.Machinery(f"vacuous campaign: {tally}")
     nontrivial = sum(1 for c in cases if verdicts[c["id"]]["trail"])
     ctx.coverage.update({
@@ -165,10 +187,12 @@ def run(ctx):
         "exhaustive": False,
         "exhaustive_part": f"{n_ex} cases: all 2-variant sets of arity <= 1 x all argument lists of arity <= 1 x modes synth/int/float",
         "forced_fallthrough_cases": n_ft,
+        "nested_overload_family": "outer sets [A, overload(w1, w2), B] in varying order, arity 1-2 (quick 500, thorough all 1056)",
         "tally": tally,
-        "samples": [{"vs": c["vs"], "args": c["args"], "mode": c["mode"], "spec_pick": verdicts[c["id"]]["pick"]}
+        "samples": [{"vs": c["vs"], "args": c["args"], "mode": c["mode"], "spec_pick": pick_name(verdicts[c["id"]])}
                     for c in (cases[n_ex // 2], cases[n_ex + 1], cases[-1])],
-        "not_covered": "more than one generic parameter per variant, non-numeric coercion-free types beyond bool",
+        "not_covered": "more than one generic parameter per variant, non-numeric coercion-free types beyond bool, "
+                       "overloaded functions nested more than one level deep",
     })
     ctx.assumptions += ["TLC", "reference HUGR interpreter (event stream)", "hugr-core validator",
                         "renderer ovl_gen.render; callee names read from Call ops of the compiled entry point"]
@@ -192,7 +216,7 @@ def replay(ctx, data):
 def selftest(ctx):
     rng = random.Random(3)
     cases = []
-    for c in G.small_exhaustive()[::7] + G.fallthrough_family(rng, 60):
+    for c in G.small_exhaustive()[::7] + G.fallthrough_family(rng, 60) + G.nested_family(rng, 40):
         c = dict(c, id=len(cases))
         c["src"] = G.render(c)
         cases.append(c)
@@ -207,23 +231,24 @@ def selftest(ctx):
         except lib.Machinery:
             raise
         if v["pick"]:
-            if judge(c, dict(v, pick=0), res):
+            if judge(c, dict(v, pick=0, ipick=0), res):
                 flagged["flip-to-reject"] += 1
             other = 1 if v["pick"] != 1 else 2
-            v2 = dict(v, pick=other, acc=[True if k + 1 == other else a for k, a in enumerate(v["acc"])])
+            v2 = dict(v, pick=other, ipick=1 if c["vs"][other - 1]["k"] == "set" else 0,
+                      acc=[[True] * len(a) if k + 1 == other else a for k, a in enumerate(v["acc"])])
             try:
                 if judge(c, v2, res):
                     flagged["other-variant"] += 1
             except lib.Machinery:
                 flagged["other-variant"] += 1
             ev = res.get("o_run", {}).get("events")
-            if ev and "events" in res["d_run"].get(str(v["pick"]), {}):
+            if ev and "events" in res["d_run"].get(pick_name(v), {}):
                 r2 = json.loads(json.dumps(res))
                 r2["o_run"]["events"] = ev[1:]
                 if judge(c, v, r2):
                     flagged["event-dropped"] += 1
         else:
-            forged = dict(v, pick=1, acc=[d["status"] == "ok" for d in res["d"]])
+            forged = dict(v, pick=1, ipick=1 if c["vs"][0]["k"] == "set" else 0)
             if judge(c, forged, res):
                 flagged["flip-to-pick"] += 1
     if min(flagged.values()) == 0:
